@@ -96,7 +96,7 @@ func (v SolutionVehicle) firstMovePlanAllUnit(
 	planUnit *solutionPlanUnitsUnitImpl,
 ) (SolutionMove, error) {
 	planUnits := common.Shuffle(
-		v.solution.model.Random(),
+		v.solution.Random(),
 		planUnit.SolutionPlanUnits(),
 	)
 	moves := make(SolutionMoves, 0, len(planUnits))
